@@ -657,6 +657,35 @@ def m_c11(out) -> list[Violation]:
     return vs
 
 
+def m_c11_losers(out) -> list[Violation]:
+    """at quiescence: once one stage of a deferred-choice group has started, every other stage of the group is CANCELED
+    (the winner cancels its siblings itself - a loser whose own StartStage never comes must not be left NOT_STARTED)"""
+    vs = []
+    if not out["quiescent"]:
+        return vs
+    specs = spec_map(out)
+    fs = final_statuses(out)
+    groups = {}
+    for ref, sp in specs.items():
+        if sp.get("choice") is not None:
+            groups.setdefault(sp["choice"], []).append(ref)
+    started = set()
+    for row in out["audit"]:
+        if row["kind"] == "stage" and row["old"] == "NOT_STARTED" and row["new"] == "RUNNING":
+            started.add(ref_of(out, row["ent"]))
+    if any(a[0] in ("C", "X", "T") for a in out["actions"]):
+        return vs
+    for g, members in groups.items():
+        won = [m for m in members if m in started]
+        if len(won) == 1:
+            for m in members:
+                if m != won[0] and fs.get(m) != "CANCELED":
+                    vs.append(Violation(what=f"deferred-choice group {g!r}: {won[0]} started but {m} ends {fs.get(m)}, not CANCELED",
+                                        signature=f"choice-loser-not-canceled:{fs.get(m)}", replay=_replay(out)))
+                    return vs
+    return vs
+
+
 # ---------------------------------------------------------------------------------------------- C18
 def m_c18(out) -> list[Violation]:
     """one resume per signal: the suspending task is executed at most once plus once per signal sent (a signal
